@@ -27,7 +27,7 @@ def build(U, arities=range(2, 13)):
     U.use('vstd::string::*')
     U.use('vstd::utf8::*')
     U.ghost(P.CORE, 'core vocabulary')
-    U.ghost(P.input_trait_decl(['span', 'at_start', 'at_end', 'match_string']), 'trait Input (contracts only)')
+    U.ghost(P.input_trait_decl(P.INPUT_BASIC), 'trait Input (contracts only)')
     U.ghost(P.TRAITS, 'trait contracts')
     P.emit_restore_on_none(U)
     for n in arities:
